@@ -25,7 +25,9 @@
 //!                                                    <kind> = echo FORM: just that, the glue against itself
 //!   a doc case may carry a fourth item (plains ((id gen) DATA) ...): after compress + decompress these objects must be streams
 //!                                                    without Filter whose content is DATA
-//! <expect> = (plain xHEX) | (plainonly xHEX) | (none).  <orc> is only read by the model (answers of flate2 / weezl).
+//! <expect> = (plain xHEX) | (plainonly xHEX) | (error) | (none).  <orc> is only read by the model (answers of flate2 / weezl).
+//!            (error): the ASCII85 text of the stream holds a complete group of five digits that stands for more than 2^32 - 1
+//!            (ISO 32000-1 7.4.3: never occurs in a correctly encoded sequence): decoding must be refused, not answered with bytes
 //!
 //! Oracle mode (`c09 --oracle`): one query per line, `(f xIN)` zlib-decode, `(l0 xIN)` / `(l1 xIN)` LZW decode
 //! without / with early change, `(z xIN)` zlib-encode at best compression (`(z0 xIN)`, `(z1 xIN)`, `(z6 xIN)`: at level 0 / 1 / 6), `(e0 xIN)` / `(e1 xIN)` LZW encode with
@@ -114,6 +116,8 @@ fn stream_case(a: &[Sx]) -> (Sx, String) {
             None
         }
     });
+    // (error): a group above 2^32 - 1 in the ASCII85 text, no decoding exists
+    let want_err = a.get(2).and_then(|x| x.tag()) == Some("error");
     let newc = a.get(3).and_then(|x| x.as_bytes()).unwrap_or_default();
     let mut fails: Vec<String> = vec![];
     let mut out = vec![];
@@ -155,6 +159,21 @@ fn stream_case(a: &[Sx]) -> (Sx, String) {
             Some(Ok(got)) if got == want => {}
             Some(_) => fails.push("get_plain_content differs from the reference decoding".into()),
             None => {}
+        }
+    }
+
+    if want_err {
+        if let Some(Ok(got)) = &dec {
+            fails.push(format!(
+                "decompressed_content answers an ASCII85 group above 2^32-1 with {} bytes instead of an error",
+                got.len()
+            ));
+        }
+        if let Some(Ok(got)) = &plain {
+            fails.push(format!(
+                "get_plain_content answers an ASCII85 group above 2^32-1 with {} bytes instead of an error",
+                got.len()
+            ));
         }
     }
 
@@ -262,7 +281,8 @@ fn stream_case(a: &[Sx]) -> (Sx, String) {
         }
     }
     // a panic on a damaged stream (absurd geometry) is a robustness matter (property C04), not a wrong decoding
-    if expect.is_none() {
+    // (not so for (error): there the stream is an ASCII85 text whose only flaw is a group above 2^32-1, and a panic is no refusal)
+    if expect.is_none() && !want_err {
         fails.retain(|f| !f.contains(" panicked: "));
     }
     let verdict = if fails.is_empty() { "ok".to_string() } else { format!("FAIL {}", fails.join("; ")) };
